@@ -68,6 +68,7 @@ type NamedTerm struct {
 }
 
 type Exec struct {
+	adhocLoops map[*Loop]*LoopSpec // loops of inlined functions without contract
 	W        *World
 	top      *FuncInfo
 	entry    *State // state at entry of the top function (after assuming requires)
@@ -95,10 +96,21 @@ type assignItem struct {
 }
 
 type frame struct {
-	fi    *FuncInfo
-	ret   func(st *State, results []Value)
-	depth int
+	fi     *FuncInfo
+	ret    func(st *State, results []Value)
+	depth  int
+	parent *frame // the calling frame of an inlined callee (recursion guard)
 	// loops currently being executed (header -> true) to detect back edges only for active ones
+}
+
+// onInlineStack: fn is already being executed on this chain of inlined frames
+func (x *Exec) onInlineStack(fr *frame, fn *ssa.Function) bool {
+	for f := fr; f != nil; f = f.parent {
+		if f.fi != nil && f.fi.Fn == fn {
+			return true
+		}
+	}
+	return false
 }
 
 func (x *Exec) pos(p token.Pos) string {
